@@ -11,6 +11,7 @@ import (
 	"fmt"
 	"math"
 	"regexp"
+	"runtime"
 	"strconv"
 	"strings"
 	"unicode/utf8"
@@ -48,8 +49,9 @@ func init() {
 			}
 			return false
 		},
-		Rule:     "one subject string and 1..8 independent calls on it. Streams: mixed = 0..9 fragments of {a,B,_,1,é,你,😀,\\xff,\\xe4\\xbd}; edge = the same mixed 50/50 with boundary scalars of every encoded length (U+7F,U+80,U+7FF,U+800,U+D7FF,U+E000,U+FFFD,U+FFFF,U+10000,U+10FFFF) and malformed sequences (lone continuation, truncated 2/3/4-byte, overlong, surrogate, >U+10FFFF, 0xf8); ident = words of the grammar [a-z][a-z0-9]*(_[a-z][a-z0-9]*)*; ident-mutated = one insertion of _,A,Z,1,é,你,\\xff,_1 into such a word; camel = the camelCase/PascalCase image of such a word. Arguments 0..runeCount+3 (30% within ±1..3 of the end, 30% in the lower half so that sums stay inside), 4% huge (MaxInt64-k, MaxInt64/2+k, MaxInt64-runeCount-k, 2^31..2^62: sums wrap around in int), -1 for Sub's length, 2% negative (correspondence only). history (header `@ C17 H`) = 3-8 calls on DIFFERENT subjects per case (lines `on <hex> <op>`): long results (>= 1024 / 4096, rarely 65536 bytes) followed by calls of the same and other functions on other subjects, RemoveRunes with a predicate that panics at its nth invocation (recovered) followed by ordinary calls; every returned string is kept with an independent copy and re-compared after every later call (results ledger, also within the ordinary cases); large (header `@ C17 L`) = subjects of 1 000-16 384 runes (rarely 65 535-65 537; thorough up to 100 000) of mixed / single / single-wide-rune-in-ASCII / invalid composition and identifiers of 500+ segments, arguments 0,1,n-1,n,n+1,2n,MaxInt64-k and 255..65537, masks of 0, 1, up to 6000 runes. Corpus: every string of ≤ 3 fragments with every in-scope argument. Non-trivial = the subject contains a multi-byte rune or an invalid byte, or is a grammar identifier with at least one underscore; distinct by hash of subject+ops",
+		Rule:     "one subject string and 1..8 independent calls on it. Streams: mixed = 0..9 fragments of {a,B,_,1,é,你,😀,\\xff,\\xe4\\xbd}; edge = the same mixed 50/50 with boundary scalars of every encoded length (U+7F,U+80,U+7FF,U+800,U+D7FF,U+E000,U+FFFD,U+FFFF,U+10000,U+10FFFF) and malformed sequences (lone continuation, truncated 2/3/4-byte, overlong, surrogate, >U+10FFFF, 0xf8); ident = words of the grammar [a-z][a-z0-9]*(_[a-z][a-z0-9]*)*; ident-mutated = one insertion of _,A,Z,1,é,你,\\xff,_1 into such a word; camel = the camelCase/PascalCase image of such a word. Arguments 0..runeCount+3 (30% within ±1..3 of the end, 30% in the lower half so that sums stay inside), 4% huge (MaxInt64-k, MaxInt64/2+k, MaxInt64-runeCount-k, 2^31..2^62: sums wrap around in int), -1 for Sub's length, 2% negative (correspondence only). history (header `@ C17 H`) = 3-8 calls on DIFFERENT subjects per case (lines `on <hex> <op>`): long results (>= 1024 / 4096, rarely 65536 bytes) followed by calls of the same and other functions on other subjects, RemoveRunes with a predicate that panics at its nth invocation (recovered) followed by ordinary calls; every returned string is kept with an independent copy and re-compared after every later call (results ledger, also within the ordinary cases); pairs of DIFFERENT identifiers with equal length and equal classic multiplicative string hash (h*31, *33, *131, *1313, *65599 mod 2^32 and 2^64; found by lattice reduction) converted one after the other; different long texts of equal byte length written into the SAME caller buffer and viewed as strings (lines `onbuf <id> <hex> <op>`) with Sub paging through each, and allocate-call-drop rounds separated by runtime.GC() (line `gc`); large (header `@ C17 L`) = subjects of 1 000-16 384 runes (rarely 65 535-65 537; thorough up to 100 000) of mixed / single / single-wide-rune-in-ASCII / invalid composition and identifiers of 500+ segments, arguments 0,1,n-1,n,n+1,2n,MaxInt64-k and 255..65537, masks of 0, 1, up to 6000 runes. Corpus: every string of ≤ 3 fragments with every in-scope argument. Non-trivial = the subject contains a multi-byte rune or an invalid byte, or is a grammar identifier with at least one underscore; distinct by hash of subject+ops",
 		Classify: classify,
+		Shrink:   shrink,
 		Parallel: true,
 		Extras:   []core.Extra{Utf8TieExtra()},
 		Assumptions: []string{
@@ -158,6 +160,20 @@ func corpus() []core.Case {
 		{Lines: []string{"@ C17 H", "on " + hx("hello world") + " removepanic " + hx("l") + " 5", "on " + hx("abc") + " remove " + hx("b"),
 			"on " + hx("héllo") + " removepanic " + hx("l") + " 1", "on " + hx("xyz") + " remove " + hx("q"), "on " + hx("wörld") + " remove " + hx("ö"),
 			"on " + hx("abc") + " removepanic " + hx("c") + " 9", "on " + hx("abc") + " rev"}, Tag: "corpus"},
+		func() core.Case {
+			ls := []string{"@ C17 H"}
+			for _, p := range collisions() {
+				ls = append(ls, "on "+hx(p.x1)+" s2c true", "on "+hx(p.x2)+" s2c true", "on "+hx(p.x1)+" c2s", "on "+hx(p.x2)+" c2s",
+					"on "+hx(p.x1)+" s2c false", "on "+hx(p.x2)+" s2c false")
+			}
+			return core.Case{Lines: ls, Tag: "corpus"}
+		}(),
+		func() core.Case {
+			a := strings.Repeat("é", 200) + strings.Repeat("a", 400)
+			b := strings.Repeat("b", 400) + strings.Repeat("ü", 200)
+			return core.Case{Lines: []string{"@ C17 H", "onbuf 0 " + hx(a) + " sub 300 50", "onbuf 0 " + hx(b) + " sub 350 50",
+				"onbuf 0 " + hx(a) + " sub 400 -1", "onbuf 0 " + hx(b) + " sub 500 20", "on " + hx(a) + " sub 300 50", "gc", "on " + hx(b) + " sub 350 50"}, Tag: "corpus"}
+		}(),
 		mk("", allOps("")...),
 		mk("a\xffb", "subd 2", "subd 1", "sub 1 1", "rev", "remove "+hx("�")),
 		mk("foo_bar_x1", "round true", "round false", "s2c true", "s2c false", "c2s"),
@@ -446,6 +462,85 @@ func genHist(r *core.Rand, tier string) core.Case {
 		}
 	}
 	lines := []string{"@ C17 H"}
+	switch r.Pick(14, 3, 3) {
+	case 1:
+		// two DIFFERENT identifiers of equal length and equal classic string hash, one after the other
+		// (a cache keyed by hash+length instead of the string would hand out the first one's result)
+		if ps := collisions(); len(ps) > 0 {
+			p := ps[r.Intn(len(ps))]
+			pre, suf := "", ""
+			if r.Chance(40) {
+				pre = genWord(r) + "_"
+			}
+			if r.Chance(40) {
+				suf = "_" + genWord(r)
+			}
+			x1, x2 := pre+p.x1+suf, pre+p.x2+suf
+			if r.Bool() {
+				x1, x2 = x2, x1
+			}
+			fu := strconv.FormatBool(r.Bool())
+			ops := [][2]string{{x1, "s2c " + fu}, {x2, "s2c " + fu}, {x1, "c2s"}, {x2, "c2s"}, {x2, "round " + fu}, {x1, "round " + fu}}
+			for _, o := range ops {
+				if r.Chance(85) {
+					lines = append(lines, "on "+hx(o[0])+" "+o[1])
+				}
+			}
+			return core.Case{Lines: lines, Tag: "history"}
+		}
+	case 2:
+		// two or three different long texts of EQUAL BYTE LENGTH written one after the other into the
+		// same caller buffer and viewed as strings (same address + length, different rune layout);
+		// Sub pages through each; plus allocate - call - drop rounds separated by runtime.GC()
+		n1, n2 := r.Range(150, 900), r.Range(60, 600)
+		mk := func(kind int) string {
+			var sb strings.Builder
+			switch kind {
+			case 0: // wide runes first
+				sb.WriteString(strings.Repeat("é", n2))
+				sb.WriteString(strings.Repeat("a", n1))
+			case 1: // ASCII first
+				sb.WriteString(strings.Repeat("b", n1))
+				sb.WriteString(strings.Repeat("ü", n2))
+			default: // interleaved
+				for i := 0; i < n1 || i < n2; i++ {
+					if i < n1 {
+						sb.WriteByte(byte('c' + i%20))
+					}
+					if i < n2 {
+						sb.WriteString("ö")
+					}
+				}
+			}
+			return sb.String()
+		}
+		texts := []string{mk(0), mk(1), mk(2)}
+		step := r.Range(40, 200)
+		for round := 0; round < r.Range(2, 3); round++ {
+			for ti := range texts {
+				t := texts[(ti+round)%3]
+				for p := r.Range(1, 3); p < 6; p += r.Range(1, 2) {
+					ln := step
+					if r.Chance(20) {
+						ln = -1
+					}
+					op := fmt.Sprintf("sub %d %d", p*step, ln)
+					if r.Chance(70) {
+						lines = append(lines, "onbuf 0 "+hx(t)+" "+op)
+					} else {
+						lines = append(lines, "on "+hx(t)+" "+op)
+						if r.Bool() {
+							lines = append(lines, "gc")
+						}
+					}
+					if len(lines) > 40 {
+						break
+					}
+				}
+			}
+		}
+		return core.Case{Lines: lines, Tag: "history"}
+	}
 	k := r.Range(3, 8)
 	style := r.Pick(4, 3, 3)
 	for i := 0; i < k; i++ {
@@ -750,6 +845,10 @@ func isHist(c core.Case) bool {
 // histLine splits `on <hex> <op…>`.
 func histLine(l string) (s string, t []string, ok bool) {
 	f := core.Toks(l)
+	if len(f) >= 4 && f[0] == "onbuf" {
+		s, ok = unhx(f[2])
+		return s, f[3:], ok
+	}
 	if len(f) < 3 || f[0] != "on" {
 		return "", nil, false
 	}
@@ -778,14 +877,35 @@ func asSingle(c core.Case, out []string, i int) (core.Case, []string, bool) {
 func implHist(c core.Case) []string {
 	out := []string{"ok"}
 	led := &ledger{}
+	bufs := map[string][]byte{} // caller buffers reused (overwritten in place) between calls
 	for _, l := range c.Lines[1:] {
+		if strings.TrimSpace(l) == "gc" {
+			runtime.GC() // freed strings may be re-allocated at the same address with other contents
+			out = append(out, "ok")
+			continue
+		}
 		s, t, ok := histLine(l)
 		if !ok {
 			out = append(out, "bad-op")
 			continue
 		}
 		before := strings.Clone(s)
-		o := core.Guard(func() string { return callL(led, s, t) })
+		useLed := led
+		if f := core.Toks(l); f[0] == "onbuf" {
+			// the subject is a string VIEW of buffer f[1]: same address and length as the previous
+			// view of that buffer, different text (hidden input = memory identity, WAVE6 class 11)
+			b := bufs[f[1]]
+			if len(b) != len(s) || len(s) == 0 {
+				b = make([]byte, len(s))
+				bufs[f[1]] = b
+			}
+			copy(b, s)
+			s = strz.UnsafeString(b)
+			useLed = nil // results may alias the buffer the CALLER overwrites next: not the library's doing
+		} else {
+			s = strings.Clone(s) // a fresh allocation per line (allocate - call - drop)
+		}
+		o := core.Guard(func() string { return callL(useLed, s, t) })
 		if s != before {
 			o = "input-modified"
 		}
@@ -1230,4 +1350,21 @@ func classify(c core.Case, out []string) []string {
 		}
 	}
 	return ls
+}
+
+// shrink: history cases are order-dependent by design and the state they expose may live in
+// the package under test (caches, pools): a shorter case that still fails IN THIS PROCESS need not
+// fail on replay (a fresh process), so history cases are kept whole. Other cases: the calls are
+// independent, keep one failing op.
+func shrink(c core.Case, fails func(core.Case) bool) core.Case {
+	mk := func(lines []string) core.Case { return core.Case{Lines: lines, Seed: c.Seed, Tag: c.Tag} }
+	if isHist(c) {
+		return c
+	}
+	for i := 1; i < len(c.Lines); i++ {
+		if t := mk([]string{c.Lines[0], c.Lines[i]}); fails(t) {
+			return t
+		}
+	}
+	return c
 }
